@@ -134,7 +134,8 @@ theorem reverseCmp_sepLen (a b : Bytes) : (reverseCmp.sep a b).length ≤ a.leng
 
 /-- non-vacuity: the uncompressed configurations of the crate satisfy `WOptsOK` -/
 theorem wOptsOK_default (blockSize ri : Nat) (hri : 1 ≤ ri) (filter : FilterPolicy)
-    (hf : ∀ ks k, k ∈ ks → filter.keyMayMatch k (filter.createFilter ks) = true) (compress : Bytes → Bytes) :
+    (hf : ∀ ks k, k ∈ ks → (filter.createFilter ks).length < 2 ^ 32 →
+      filter.keyMayMatch k (filter.createFilter ks) = true) (compress : Bytes → Bytes) :
     WOptsOK { cmp := defaultCmp, blockSize, restartInterval := ri, compression := 0, filter, compress } where
   lawful := defaultCmp_lawful
   ri := hri
@@ -145,7 +146,8 @@ theorem wOptsOK_default (blockSize ri : Nat) (hri : 1 ≤ ri) (filter : FilterPo
   sepLen := fun _ => defaultCmp_sepLen
 
 theorem wOptsOK_reverse (blockSize ri : Nat) (hri : 1 ≤ ri) (filter : FilterPolicy)
-    (hf : ∀ ks k, k ∈ ks → filter.keyMayMatch k (filter.createFilter ks) = true) (compress : Bytes → Bytes) :
+    (hf : ∀ ks k, k ∈ ks → (filter.createFilter ks).length < 2 ^ 32 →
+      filter.keyMayMatch k (filter.createFilter ks) = true) (compress : Bytes → Bytes) :
     WOptsOK { cmp := reverseCmp, blockSize, restartInterval := ri, compression := 0, filter, compress } where
   lawful := reverseCmp_lawful
   ri := hri
@@ -155,9 +157,23 @@ theorem wOptsOK_reverse (blockSize ri : Nat) (hri : 1 ≤ ri) (filter : FilterPo
   lastSep := reverseCmp_lastSep
   sepLen := fun _ => reverseCmp_sepLen
 
+/-- non-vacuity for the crate's DEFAULT filter policy: bloom (with any `bits_per_key`; the default is
+    `Consts.defaultBitsPerKey` = 10) satisfies `WOptsOK` (since fix D19: bit count in 64 bits) -/
+theorem wOptsOK_bloom (blockSize ri : Nat) (hri : 1 ≤ ri) (b : Nat) (compress : Bytes → Bytes) :
+    WOptsOK { cmp := defaultCmp, blockSize, restartInterval := ri, compression := 0,
+              filter := Bloom.policy b, compress } :=
+  wOptsOK_default blockSize ri hri (Bloom.policy b) (bloom_policy_sound b) compress
+
+theorem wOptsOK_reverse_bloom (blockSize ri : Nat) (hri : 1 ≤ ri) (b : Nat) (compress : Bytes → Bytes) :
+    WOptsOK { cmp := reverseCmp, blockSize, restartInterval := ri, compression := 0,
+              filter := Bloom.policy b, compress } :=
+  wOptsOK_reverse blockSize ri hri (Bloom.policy b) (bloom_policy_sound b) compress
+
 end Sst
 
 #print axioms Sst.build_wf
 #print axioms Sst.build_wf_of_ok
 #print axioms Sst.build_any_sink_wf
 #print axioms Sst.wOptsOK_default
+#print axioms Sst.wOptsOK_bloom
+#print axioms Sst.wOptsOK_reverse_bloom
